@@ -903,9 +903,6 @@ class Ref:
                 return "e"
             if name in CMP:
                 res_dt = BOOL
-                if dt.rt == "other" or d2.rt == "other":
-                    if name not in ("eq", "ne"):
-                        return "e"
             else:
                 res_dt = promote_ref(dt, d2)
                 if res_dt is None:
@@ -913,11 +910,11 @@ class Ref:
             out, failed = [], False
             for x, y in zip(lst, o2.lst):
                 try:
-                    if isinstance(x, int) and isinstance(y, int):
-                        r = PYOPS[name](x, y)
-                    elif name in ("eq", "ne"):
-                        r = PYOPS[name](x, y)
-                    else:
+                    # the Python operator on the Python items (ints; str / bytes / Bits for the other dtypes)
+                    px = x if isinstance(x, int) else dt.bits_to_py(x[1:])
+                    py = y if isinstance(y, int) else d2.bits_to_py(y[1:])
+                    r = PYOPS[name](px, py)
+                    if not isinstance(r, (bool, int)):
                         raise TypeError
                     r = int(r) if isinstance(r, bool) else r
                     res_dt.enc(r)
@@ -1453,3 +1450,47 @@ def gen(rng, tier):
             continue
         yield hist(da, va, None, [f"aop:eq:{db.s}:{_vsstr(vb)}:None"])
         yield hist(da, va, None, [f"aop:ne:{db.s}:{_vsstr(vb)}:None"])
+    # ---------------------------------------------------------------- 9. operators BETWEEN two Arrays, every non-numeric / multiplier-bearing dtype on either side
+    SK = {"bytes": ["bytes1", "bytes2", "bytes3", "bytes4"], "hex": ["hex4", "hex8", "hex12"], "bin": ["bin1", "bin3", "bin8"], "oct": ["oct3", "oct6"]}
+    allcmp = ["eq", "ne", "lt", "le", "gt", "ge"]
+    for kind, toks in SK.items():
+        for tl in toks:
+            for tr_ in toks:
+                da, db = D(tl), D(tr_)
+                for n in ((2, 3, 4, 6) if kind == "bytes" or big else (2, 3)):
+                    va = rvals(da, rng, n)
+                    if da.key == db.key:
+                        vb = list(va)
+                        for _ in range(rng.randint(0, 2)):
+                            vb[rng.randrange(n)] = rvalue(db, rng)
+                    else:
+                        vb = rvals(db, rng, n)
+                        # share a prefix / make one a prefix of the other now and then
+                        k = rng.randrange(n)
+                        m = min(da.w, db.w)
+                        vb[k] = "#" + (va[k][1:1 + m] + vb[k][1 + m:])[:db.w].ljust(db.w, "0")
+                    ops = [f"aop:{name}:{db.s}:{_vsstr(vb)}:{sv(None if rng.random() < 0.7 else wire(rtrail(db, rng, 1.0) or ''))}" for name in allcmp]
+                    yield hist(da, va, rtrail(da, rng, 0.3), ops + ["list"])
+                    yield hist(da, va, None, [f"aop:add:{db.s}:{_vsstr(vb)}:None", f"aop:mul:{db.s}:{_vsstr(vb)}:None", f"aop:eq:{db.s}:{_vsstr(vb[:-1])}:None"])
+            # Array == list / != list (the list is converted to an Array of our dtype first)
+            da = D(tl)
+            for n in (2, 3, 5):
+                va = rvals(da, rng, n)
+                vb = list(va)
+                vb[rng.randrange(n)] = rvalue(da, rng)
+                yield hist(da, va, rtrail(da, rng, 0.3), [f"eql:eq:{_vsstr(va)}", f"eql:ne:{_vsstr(vb)}", f"eql:eq:{_vsstr(vb)}", f"eql:eq:{_vsstr(vb[:-1])}"])
+    # a number on one side, a str / bytes item on the other: == is False everywhere, ordering raises
+    for ti in ("u8", "i16", "bool", "<H"):
+        for tk in ("bytes1", "bytes2", "bytes3", "hex8", "bin3", "oct6", "bits5"):
+            da, db = D(ti), D(tk)
+            for n in (2, 3):
+                va, vb = rvals(da, rng, n), rvals(db, rng, n)
+                yield hist(da, va, None, [f"aop:{name}:{db.s}:{_vsstr(vb)}:None" for name in ("eq", "ne", "lt", "add")])
+                yield hist(db, vb, None, [f"aop:{name}:{da.s}:{_vsstr(va)}:None" for name in ("eq", "ne", "ge", "sub")])
+    for tk in ("bits1", "bits5", "bits9"):
+        da = D(tk)
+        for n in (2, 3):
+            va = rvals(da, rng, n)
+            vb = list(va)
+            vb[rng.randrange(n)] = rvalue(da, rng)
+            yield hist(da, va, None, [f"aop:eq:{da.s}:{_vsstr(vb)}:None", f"aop:ne:{da.s}:{_vsstr(vb)}:None", f"eql:eq:{_vsstr(vb)}"])
